@@ -34,17 +34,22 @@ MANIFEST = {
             'CAS, whoever crashes, whatever is interleaved (pass_progress: every such pass invokes the job or uses up '
             'one unit of slack); has_scheduled_jobs is characterised exactly, "reports exactly the pending jobs" is '
             'refuted by a rolled-back job (has_jobs_exact_full_fails, known finding) and proved when the in-memory map '
-            'is fresh. LEGACY scheduler (scheduler_type=legacy, the default; 22 theorems in Props/C13Legacy over ALL '
-            'step sequences of schedule / commit / rollback / tick / select / CAS-capture / per-call invoke / delete / '
-            'crash, any batch_size): never invoked before execution_time; a rolled-back or uncommitted call is never '
-            'captured or invoked; the processing flag is a CAS, captures of a call = its flag <= 1, hence AT MOST ONE '
-            'invocation unconditionally; a committed call leaves the store only after it was invoked; '
-            'has_scheduled_jobs is exact; the crash-recovery / at-least-once clause is FALSE '
-            '(legacy_crash_recovery_full_fails; for all histories: legacy_crashed_capture_never_runs - a call captured '
-            'by an instance that dies is never run by anybody - and legacy_bad_target_strands_batch - a call captured '
-            'in one batch with an un-importable call is never run although the instance lives; both replayed on the '
-            'real LegacyScheduler and recorded as known findings) and proved for calls whose flag is clear '
-            '(legacy_crash_recovery_partial). Both models are tied to the code by comparing the complete observation '
+            'is fresh; a job whose target cannot be imported (cfg.bad) is never invoked, is removed, and does '
+            'not keep the jobs captured with it from running (unpreparable_never_invoked, '
+            'unpreparable_head_does_not_block; eventual_invocation holds for every other job whatever cfg.bad is) - '
+            'the model of the code after repo patch 18. LEGACY scheduler (scheduler_type=legacy, the default; 22 '
+            'theorems in Props/C13Legacy over ALL step sequences of schedule / commit / rollback / tick / select / '
+            'CAS-capture / per-call invoke / delete / crash, any batch_size): never invoked before execution_time; a '
+            'rolled-back or uncommitted call is never captured or invoked; the processing flag is a CAS, captures of '
+            'a call = its flag <= 1, hence AT MOST ONE invocation unconditionally; a committed call leaves the store '
+            'only after it was invoked (or is un-preparable: logged and dropped); has_scheduled_jobs is exact; a call '
+            'captured in one batch with an un-preparable call is invoked by that iteration '
+            '(legacy_bad_target_spares_batch, the model of the code after repo patch 17; the former strand is a '
+            'regression case); the crash-recovery / at-least-once clause is FALSE (legacy_crash_recovery_full_fails; '
+            'for all histories: legacy_crashed_capture_never_runs - a call captured by an instance that dies is never '
+            'run by anybody; replayed on the real LegacyScheduler, known finding) and proved for calls whose flag is '
+            'clear (legacy_crash_recovery_partial). Both models are tied to the code by comparing the complete '
+            'observation '
             '(rows, per-instance volatile state / iteration phase, event traces, has_scheduled_jobs answers) after '
             'every step of random and (thorough, default scheduler) exhaustively enumerated interleavings; the '
             'comparison operators, the CAS filters, the 1-second slack of the legacy select and the invoke-before-'
@@ -60,17 +65,21 @@ MANIFEST = {
 RULE = ('stream sched: a case is one step sequence (schedule-in-tx/commit/rollback/tick/pop/task/pollSelect/'
         'pollCapture/pollNext/crash, 25-45 random steps chosen from the steps enabled in the real state plus a '
         'closing phase that lets a live instance poll) on 1-3 real DefaultScheduler instances, 1-4 jobs, pickup 1-3, '
-        'timeout 1-4, batch None/1/2; non-trivial = at least one invocation happened AND at least one of: a CAS '
+        'timeout 1-4, batch None/1/2, in ~40 % of the cases one or two job ordinals are un-preparable (scheduled '
+        'with a func_name that cannot be imported; the model gets them as cfg.bad); non-trivial = at least one '
+        'invocation happened AND at least one of: a CAS '
         'capture failed, a job was captured twice (recapture), an instance crashed with work in flight, a '
-        'rolled-back job sat in a heap, a job was picked up by the store poll; distinct = distinct canonical step '
+        'rolled-back job sat in a heap, a job was picked up by the store poll, an un-preparable job was processed '
+        'while another job was behind it in the same poll queue; distinct = distinct canonical step '
         'sequence. Exhaustive stream: one case per (distinct model state, step) edge, non-trivial when the step '
         'changes the state. Stream legacy: one step sequence (schedule / scheduleBad (un-importable target) in a '
         'transaction, commit, rollback, tick, select, capture, invoke (one target call), delete, crash; 15-35 random '
         'steps among those enabled in the real state plus a closing phase in which the live instances finish and one '
         'keeps polling) on 1-3 real LegacyScheduler instances, up to 4 calls, batch None/1/2; non-trivial = an '
         'invocation happened AND (a CAS was lost, or an instance crashed with captured work, or two instances had '
-        'selected at the same time, or a rolled-back call existed during a select), or a valid call was stranded by '
-        'an aborted batch.')
+        'selected at the same time, or a rolled-back call existed during a select), or a batch contained an '
+        'un-preparable call and its other calls were invoked (or, on code without the fix, a valid call was '
+        'stranded by the aborted batch).')
 TRUSTED = [
     'harness/sched_driver.py: baton-stepped threads, fake condition variable/executor, timeutils clock override, '
     'emulation of READ COMMITTED visibility of the scheduling transaction (row hidden until the commit step)',
@@ -107,6 +116,7 @@ class Runner(object):
         self.sd = sd
         self.ctx = ctx
         self.cfg = cfg
+        self.bad = set(cfg.get('bad') or [])    # ordinals of the jobs whose target cannot be imported
         self.n = n
         self.stream = stream
         self.w = sd.World(cfg, n)
@@ -230,6 +240,9 @@ class Runner(object):
                          {'kind': 'unscheduled-job-invoked'})
                 continue
             job = w.jobs[j]
+            if j in self.bad:
+                self.hit('job %d, whose target function cannot be imported, was invoked' % j,
+                         {'kind': 'unpreparable-job-invoked'})
             if t < job['sched_at'] + job['ra']:
                 self.hit('job %d scheduled at %d with run_after %d was invoked at %d'
                          % (j, job['sched_at'], job['ra'], t), {'kind': 'invoked-early'})
@@ -243,7 +256,8 @@ class Runner(object):
                      % [j for j, c in cnt.items() if c > 1], {'kind': 'invoked-twice-within-timeout'})
         rows = w.db_rows()
         for o, job in enumerate(w.jobs):
-            if job['state'] == 'committed' and o not in rows and cnt.get(o, 0) == 0:
+            # a job that cannot be prepared is logged and dropped (deleted without an invocation)
+            if job['state'] == 'committed' and o not in rows and cnt.get(o, 0) == 0 and o not in self.bad:
                 self.hit('committed job %d is neither in the store nor invoked' % o,
                          {'kind': 'committed-job-lost'})
         if with_has:
@@ -280,7 +294,10 @@ class Runner(object):
     # ------------------------------------------------------------------ closing phase
     def closing(self):
         """Fairness: a live instance keeps polling after the timeouts; then every committed
-        job must have run (at least once / crash recovery)."""
+        job must have run (at least once / crash recovery) and every committed job that cannot be
+        prepared must be gone from the store (dropped, not retried for ever).  Every step goes
+        through `do`: an exception inside the real poll loop ends that actor (poll back to idle),
+        the number of passes is bounded."""
         w = self.w
         for tx in sorted(set(j['tx'] for j in w.jobs if j['state'] == 'uncommitted')):
             fate = [j['fate'] for j in w.jobs if j['tx'] == tx and j['state'] == 'uncommitted'][0]
@@ -306,12 +323,24 @@ class Runner(object):
                 self.do(['pollNext', i], last=False)
                 guard += 1
             cnt = collections.Counter(e[1] for e in w.trace if e[0] == 'invoked')
-            if all(cnt.get(o, 0) >= 1 for o, j in enumerate(w.jobs) if j['state'] == 'committed'):
+            rows = w.db_rows()
+            if all((o not in rows) if o in self.bad else cnt.get(o, 0) >= 1
+                   for o, j in enumerate(w.jobs) if j['state'] == 'committed'):
                 break
         self.monitor(True)
         cnt = collections.Counter(e[1] for e in w.trace if e[0] == 'invoked')
+        rows = w.db_rows()
         for o, j in enumerate(w.jobs):
-            if j['state'] == 'committed' and cnt.get(o, 0) == 0:
+            if j['state'] != 'committed':
+                continue
+            if o in self.bad:
+                if o in rows:
+                    self.hit('committed job %d, whose target function cannot be imported, is still in the store '
+                             '(captured %d times) although live instance %d kept polling after the pickup and '
+                             'capture timeouts: it is retried for ever'
+                             % (o, sum(1 for e in w.trace if e[0] == 'captured' and e[1] == o), i),
+                             {'kind': 'unpreparable-job-never-removed'})
+            elif cnt.get(o, 0) == 0:
                 self.hit('committed job %d was never invoked although live instance %d kept polling after '
                          'the pickup and capture timeouts' % (o, i), {'kind': 'committed-job-never-run'})
         return True
@@ -323,6 +352,8 @@ class Runner(object):
         cap = collections.Counter(e[1] for e in w.trace if e[0] == 'captured')
         m['recapture'] += sum(1 for c in cap.values() if c > 1)
         m['invocation'] += sum(1 for e in w.trace if e[0] == 'invoked')
+        m['bad-job-processed'] += w.stats['bad-job-processed']
+        m['bad-job-processed-in-poll-queue'] += w.stats['bad-job-processed-in-poll-queue']
         # poll pickup: a capture by an instance that is not running the job from its own heap
         return m
 
@@ -380,6 +411,8 @@ def random_case(ctx, rng, stream='sched'):
     cfg = {'pickup': rng.choice([1, 1, 2, 3]), 'timeout': rng.choice([1, 2, 2, 3, 4]),
            'batch': rng.choice([None, None, None, 1, 2])}
     max_jobs = rng.choice([1, 2, 3, 3, 4])
+    # jobs that cannot be prepared (un-importable target): none in ~60 % of the cases, else one or two ordinals
+    cfg['bad'] = [] if rng.random() < 0.6 else sorted(set(rng.randrange(max_jobs) for _ in range(rng.choice([1, 1, 2]))))
     length = rng.randrange(25, 46)
     r = Runner(ctx, cfg, n, stream)
     try:
@@ -396,12 +429,13 @@ def random_case(ctx, rng, stream='sched'):
             if v:
                 ctx.count(stream, 'mech:' + k)
         ctx.count(stream, 'instances:%d' % n)
+        ctx.count(stream, 'bad-jobs-configured:%d' % len(cfg['bad']))
         ctx.count(stream, 'closing:' + ('polled' if closed else 'nobody-alive'))
         picked = any(e[0] == 'captured' and r.w.jobs[e[1]]['inst'] != e[3] for e in r.w.trace)
         if picked:
             ctx.count(stream, 'mech:picked-up-by-other-instance')
         interesting = (mech['capture-cas-failed'] or mech['recapture'] or mech['crash-with-captured-work'] or
-                       mech['rolled-back-job-in-memory'] or picked)
+                       mech['rolled-back-job-in-memory'] or picked or mech['bad-job-processed-in-poll-queue'])
         ctx.evaluated(stream, [cfg, n, r.steps], nontrivial=bool(mech['invocation'] and interesting))
         if r.agree and ctx.rng.random() < 0.05:
             ctx.sample({'cfg': cfg, 'n': n, 'steps': r.steps[:14], 'trace': r.w.trace[:8]})
@@ -513,6 +547,10 @@ EXH = [
     {'name': '1inst-2jobs-batch1', 'cfg': {'pickup': 1, 'timeout': 1, 'batch': 1}, 'n': 1, 'jobs': 2, 'ra': [0, 1],
      'fates': ['commit', 'rollback'], 'sched_insts': [0], 'poll_insts': [0], 'tmax': 4, 'crashes': 0,
      'depth': 10, 'max_runs': 8000},
+    # job 0 cannot be prepared: dropped by the dispatcher task of instance 0 or by the store poll of instance 1
+    {'name': '2inst-2jobs-bad0', 'cfg': {'pickup': 1, 'timeout': 1, 'batch': None, 'bad': [0]}, 'n': 2, 'jobs': 2,
+     'ra': [0], 'fates': ['commit'], 'sched_insts': [0], 'poll_insts': [1], 'tmax': 3, 'crashes': 1,
+     'depth': 10, 'max_runs': 8000},
 ]
 
 # the counter-witness of Props/C13 has_jobs_exact_full_fails, replayed on the real code first
@@ -527,6 +565,24 @@ CORPUS = [
     {'cfg': {'pickup': 1, 'timeout': 2, 'batch': None}, 'n': 3,
      'steps': [['schedule', 0, 0, 1, 0, 'commit'], ['commit', 0], ['crash', 0], ['tick', 2], ['pollSelect', 1],
                ['pollSelect', 2], ['pollCapture', 2], ['pollCapture', 1], ['pollNext', 2], ['pollNext', 2]]},
+    # starvation witness (patch 18): job 0 cannot be prepared, job 1 is valid, both are picked up by ONE store
+    # poll of instance 1: job 0 is logged and deleted without an invocation, job 1 must be invoked (without the
+    # patch _prepare_job raises out of _process_store_jobs, job 0 is recaptured in front of job 1 for ever)
+    {'cfg': {'pickup': 1, 'timeout': 2, 'batch': None, 'bad': [0]}, 'n': 2,
+     'steps': [['schedule', 0, 0, 1, 0, 'commit'], ['schedule', 0, 0, 1, 1, 'commit'], ['commit', 0], ['commit', 1],
+               ['crash', 0], ['tick', 2], ['pollSelect', 1], ['pollCapture', 1], ['pollNext', 1], ['pollNext', 1],
+               ['pollNext', 1], ['pollNext', 1]]},
+    # the same without a tie in ORDER BY execute_at (the model orders ties its own way and the harness follows it):
+    # the un-preparable job 0 is guaranteed to be in front of job 1 in the poll queue
+    {'cfg': {'pickup': 1, 'timeout': 2, 'batch': None, 'bad': [0]}, 'n': 2,
+     'steps': [['schedule', 0, 0, 1, 0, 'commit'], ['schedule', 0, 1, 1, 1, 'commit'], ['commit', 0], ['commit', 1],
+               ['crash', 0], ['tick', 3], ['pollSelect', 1], ['pollCapture', 1], ['pollNext', 1], ['pollNext', 1],
+               ['pollNext', 1], ['pollNext', 1]]},
+    # the same two jobs run from the heap of the instance that scheduled them (_process_memory_job)
+    {'cfg': {'pickup': 1, 'timeout': 2, 'batch': None, 'bad': [0]}, 'n': 1,
+     'steps': [['schedule', 0, 0, 1, 0, 'commit'], ['schedule', 0, 0, 1, 1, 'commit'], ['commit', 0], ['commit', 1],
+               ['pop', 0], ['pop', 0], ['task', 0, 0], ['task', 0, 0], ['task', 0, 0],
+               ['task', 0, 1], ['task', 0, 1], ['task', 0, 1]]},
 ]
 
 
@@ -601,7 +657,8 @@ def replay(ctx, rep):
     try:
         for s in r['steps']:
             run.do(s)
-        print('replay: %d steps on the real DefaultScheduler; trace=%s; monitor hits=%s'
-              % (len(r['steps']), run.w.trace, [h[0] for h in run.hits]))
+        run.closing()      # the liveness hits (never run / never removed) are raised after the closing phase
+        print('replay: %d steps (+closing phase) on the real DefaultScheduler, un-preparable jobs %s; trace=%s; '
+              'monitor hits=%s' % (len(r['steps']), sorted(run.bad), run.w.trace, [h[0] for h in run.hits]))
     finally:
         run.close()
